@@ -5,6 +5,7 @@ package main
 
 import (
 	"fmt"
+	"sort"
 	"strings"
 
 	"golang.org/x/tools/go/ssa"
@@ -138,35 +139,7 @@ func checkC13(c *Check) {
 	c.registryLocked("C13.4 registry-locked")
 	c.backoffArithmetic("C13.3 hold-down-length")
 	c.inboundLookup("C13.1 lookup-and-destination", "C13.4 registry-locked")
-	// map keys agree across insert / lookup / delete: String() of a netip.Addr
-	for _, s := range []string{"Server.AddPeer", "Server.DeletePeer", "Server.GetPeer"} {
-		g := p.Fn(s)
-		if g == nil {
-			continue
-		}
-		b := NewAnalysis(p, g)
-		b.Run()
-		allInstrs(g, func(in ssa.Instruction) {
-			var key ssa.Value
-			switch x := in.(type) {
-			case *ssa.Lookup:
-				key = x.Index
-			case *ssa.MapUpdate:
-				key = x.Key
-			case *ssa.Call:
-				if p.calleeDesc(x) == "builtin:delete" {
-					key = x.Call.Args[1]
-				}
-			}
-			if key == nil {
-				return
-			}
-			for _, st := range b.At[in] {
-				k := b.exprOf(st, nil, key)
-				c.require(isCallNamed(k, "netip.Addr.String"), "C13.1 registry-keys", s, "map key", p.InstrPos(in), "registry keys are netip.Addr.String() of the remote address; got "+trunc(k.Key, 60))
-			}
-		})
-	}
+	c.registryKeys("C13.1 registry-keys")
 	// incomingConnection: close when the peer is stopping, else hand over
 	if ic := p.Fn("peer.incomingConnection"); ic != nil {
 		ok := false
@@ -392,4 +365,59 @@ func (c *Check) inboundLookup(rule, lockRule string) {
 		c.require(held[in], lockRule, "Server.handleInboundConn", "lookup under lock", p.InstrPos(in), "the lookup runs with Server.mu held")
 	})
 	c.floor(rule, nl, 1, "registry lookups in handleInboundConn")
+}
+
+// registryKeys: every insert, lookup and delete of the peer registry derives
+// its key from a netip.Addr by the same function.
+func (c *Check) registryKeys(rule string) {
+	p := c.P
+	// map keys agree across insert / lookup / delete: String() of a netip.Addr
+	keyShapes := map[string][]string{}
+	defer func() {
+		if len(keyShapes) > 1 {
+			var all []string
+			for sh, sites := range keyShapes {
+				all = append(all, sh+"addr at "+strings.Join(sites, ", "))
+			}
+			sort.Strings(all)
+			c.fail(rule, "", "one key function", "-", "the registry is keyed by different functions of the address at different sites (an entry inserted under one is not found under the other): "+strings.Join(all, " | "))
+		} else {
+			c.ok(rule, "", "one key function", "-", "every insert, lookup and delete derives its key from the address the same way")
+		}
+	}()
+	for _, s := range []string{"Server.AddPeer", "Server.DeletePeer", "Server.GetPeer"} {
+		g := p.Fn(s)
+		if g == nil {
+			continue
+		}
+		b := NewAnalysis(p, g)
+		b.Run()
+		allInstrs(g, func(in ssa.Instruction) {
+			var key ssa.Value
+			switch x := in.(type) {
+			case *ssa.Lookup:
+				key = x.Index
+			case *ssa.MapUpdate:
+				key = x.Key
+			case *ssa.Call:
+				if p.calleeDesc(x) == "builtin:delete" {
+					key = x.Call.Args[1]
+				}
+			}
+			if key == nil {
+				return
+			}
+			for _, st := range b.At[in] {
+				k := b.exprOf(st, nil, key)
+				c.require(isCallNamed(k, "netip.Addr.String"), rule, s, "map key", p.InstrPos(in), "registry keys are netip.Addr.String() of the remote address; got "+trunc(k.Key, 60))
+				// the same function of the address at every site: the chain of
+				// calls applied to it (String, or String∘Unmap, …)
+				shape := ""
+				for x := k; x != nil && (x.Op == "call" || x.Op == "rcall") && len(x.Args) > 0; x = x.Args[len(x.Args)-1] {
+					shape += x.S + "∘"
+				}
+				keyShapes[shape] = append(keyShapes[shape], s+" "+p.InstrPos(in))
+			}
+		})
+	}
 }
